@@ -173,38 +173,43 @@ structure Response where
   payload : Payload
   deriving DecidableEq, Repr
 
-/-- the hand-written visitor of `Response<'_, &RawValue>` (types/src/response.rs:206-350);
-a JSON array is accepted positionally only by *derived* visitors, not by this one -/
+/-- the decision of the hand-written `Response` visitor (types/src/response.rs:206-350) as a function
+of what it has seen: how often each of the four known names occurred and the first value of each -/
+def respCore (cj cr ce ci : Nat) (j r e i : Option Text) : Option Response :=
+  if cj > 1 || cr > 1 || ce > 1 || ci > 1 then none else
+  -- jsonrpc : Option<TwoPointZero>
+  let jOk : Option Bool := match j with
+    | none => some false
+    | some jr => if jr == tNull then some false else if isTwoPointZero jr then some true else none
+  match jOk, i with
+  | some jv, some ir =>
+    match decodeId ir with
+    | none => none
+    | some id =>
+      match r, e with
+      | some _, some _ => none
+      | some rr, none => some { jsonrpc := jv, id := id, payload := .result rr }
+      | none, some er =>
+        match decodeErrObj er with
+        | some eo => some { jsonrpc := jv, id := id, payload := .error eo }
+        | none => none
+      | none, none => none
+  | _, _ => none
+
+/-- the visitor on the member list (keys decoded, duplicates kept, in order) -/
+def respOfMembers (dms : List (Text × Text)) : Option Response :=
+  respCore (countField kJsonrpc dms) (countField kResult dms) (countField kError dms) (countField kId dms)
+    (lookupField kJsonrpc dms) (lookupField kResult dms) (lookupField kError dms) (lookupField kId dms)
+
+/-- `serde_json::from_str::<Response<&RawValue>>`; a JSON array is accepted positionally only by
+*derived* visitors, not by this hand-written one -/
 def decodeResponse (raw : Text) : Option Response :=
   match members raw with
   | none => none
   | some ms =>
     match decodeKeys ms with
     | none => none
-    | some dms =>
-      if [kJsonrpc, kResult, kError, kId].any (fun k => countField k dms > 1) then none else
-      let j := lookupField kJsonrpc dms
-      let r := lookupField kResult dms
-      let e := lookupField kError dms
-      let i := lookupField kId dms
-      -- jsonrpc : Option<TwoPointZero>
-      let jOk : Option Bool := match j with
-        | none => some false
-        | some jr => if jr == tNull then some false else if isTwoPointZero jr then some true else none
-      match jOk, i with
-      | some jv, some ir =>
-        match decodeId ir with
-        | none => none
-        | some id =>
-          match r, e with
-          | some _, some _ => none
-          | some rr, none => some { jsonrpc := jv, id := id, payload := .result rr }
-          | none, some er =>
-            match decodeErrObj er with
-            | some eo => some { jsonrpc := jv, id := id, payload := .error eo }
-            | none => none
-          | none, none => none
-      | _, _ => none
+    | some dms => respOfMembers dms
 
 /-! ### encoders (serde field order), built with `joinMembers` (the dual of `members`) -/
 
